@@ -1,4 +1,5 @@
 import DriverLib.Basic
+import DriverLib.Flag
 import QV.Model.States
 import QV.Model.Prob
 open Lean Drv QV
@@ -91,11 +92,11 @@ def replayWith {n B : Nat} (steps : (Fin B → Fin n → Bool) → Prog Float (F
     let rows ← parseBitRows sj n
     if rows.size != B then throw s!"start: expected {B} rows"
     let start : Fin B → Fin n → Bool := fun b => rows[b.val]!
-    let overwrite ← jBool (← fld j "overwrite")
+    let overwrite ← parseFlag (← fld j "overwrite")   -- the object the caller passed: JSON bool = singleton, else a flag descriptor
     let initId ← jNat (← fld j "init_id")
     let native ← jBool (← fld j "init_native")
     let fresh ← jNat (← fld j "fresh")
-    match (gibbsCall steps fresh overwrite ⟨initId, native, start⟩).run draws.toList with
+    match (gibbsCallF steps fresh overwrite ⟨initId, native, start⟩).run draws.toList with
     | none => return Json.mkObj [("short", .bool true)]
     | some (res, ps, rest) =>
       return Json.mkObj [("final", bitMatOut res.result.data), ("probs", fListOut ps),
